@@ -36,7 +36,8 @@ func svcPortSets() [][]wm.SvcPort {
 	return res
 }
 
-var backends = []wm.Backend{{Svc: "s", PortNum: 80}, {Svc: "s", PortNum: 8080}, {Svc: "s", PortNum: 9999}, {Svc: "s", PortName: "p1"}, {Svc: "s", PortName: "p2"}, {Svc: "s", PortName: "nosuch"}, {Svc: "missing", PortNum: 80}, {Svc: "s", PortNum: 53}, {Svc: "s2", PortNum: 80}}
+var backends = []wm.Backend{{Svc: "s", PortNum: 80}, {Svc: "s", PortNum: 8080}, {Svc: "s", PortNum: 9999}, {Svc: "s", PortName: "p1"}, {Svc: "s", PortName: "p2"}, {Svc: "s", PortName: "nosuch"}, {Svc: "missing", PortNum: 80}, {Svc: "s", PortNum: 53}, {Svc: "s2", PortNum: 80},
+	{Svc: "s", PortName: "http"}} // a port NAME that is also the named targetPort of a service port with another name
 var rtargets = []wm.Target{{}, wm.TName("p1"), wm.TName("p2"), wm.TName("zz"), wm.TNum(80), wm.TNum(8080), wm.TNum(9090)}
 var sels = []map[string]string{{"app": "a"}, {"app": "b"}, {"app": "a", "tier": "x"}, nil, {"app": "zz"}}
 
